@@ -193,6 +193,32 @@ Section Frozen.
     rewrite <- seq_shift, map_map. exact IH.
   Qed.
 
+  Lemma rank_perm (a b : list (nat * A)) p : Permutation a b -> rank a p = rank b p.
+  Proof. induction 1 as [|[k x] l l' _ IH|[k x] [k' x'] l|l l' l'' _ IH1 _ IH2]; simpl; lia. Qed.
+  Lemma assoc_nodup (l : list (nat * A)) : NoDup (map fst l) -> forall k x, In (k, x) l -> assoc k l = Some x.
+  Proof.
+    induction l as [|[k1 x1] t IH]; intros N k x Hin; [destruct Hin|]. simpl in N. inversion N as [|a b Hn Nt]; subst.
+    simpl. destruct Hin as [E|Hin].
+    - inversion E; subst. rewrite Nat.eqb_refl. reflexivity.
+    - destruct (Nat.eqb k1 k) eqn:E; [|apply IH; auto].
+      apply Nat.eqb_eq in E; subst. exfalso. apply Hn. apply (in_map fst) in Hin. exact Hin.
+  Qed.
+  Lemma assoc_some_in (l : list (nat * A)) k x : assoc k l = Some x -> In (k, x) l.
+  Proof. induction l as [|[k1 x1] t IH]; simpl; [discriminate|]. destruct (Nat.eqb k1 k) eqn:E.
+    - intros H; inversion H; subst. apply Nat.eqb_eq in E; subst. left; reflexivity.
+    - intros H; right; apply IH, H. Qed.
+  Lemma assoc_perm (a b : list (nat * A)) p :
+    NoDup (map fst a) -> Permutation a b -> assoc p a = assoc p b.
+  Proof.
+    intros N P. assert (Nb : NoDup (map fst b)) by (eapply Permutation_NoDup; [apply Permutation_map, P | exact N]).
+    destruct (assoc p a) as [x|] eqn:Ea.
+    - symmetry. apply assoc_nodup; auto. eapply Permutation_in; [exact P|]. apply assoc_some_in, Ea.
+    - destruct (assoc p b) as [y|] eqn:Eb; auto.
+      apply assoc_some_in in Eb. apply (Permutation_in _ (Permutation_sym P)) in Eb.
+      rewrite (assoc_nodup a N p y Eb) in Ea. discriminate.
+  Qed.
+
+
   (* ================= the theorem ================= *)
   Variables (n : nat) (frozen : list (nat * A)) (params : list A).
   Hypothesis valid : frozen_valid n frozen = true.
@@ -252,4 +278,43 @@ Section Frozen.
       congruence.
     - rewrite (unfixed_positions s Hs n), (rank_all s n Hb), Hlen, <- plen. apply map_nth_seq.
   Qed.
+
+  (* ---- independence of the dict's insertion order; substitution by index -------------- *)
+  (* "substitution by index": position p holds the frozen value of key p, otherwise the free
+     parameter whose number is p minus the number of frozen keys below p.  The definition does
+     not sort and does not depend on the order of the list [frozen]. *)
+  Definition by_index (n : nat) (frozen : list (nat * A)) (params : list A) : list A :=
+    map (fun p => match assoc p frozen with Some x => x | None => nth (p - rank frozen p) params d end)
+        (seq 0 n).
+
+  Lemma nth_map_seq (f : nat -> A) m p : p < m -> nth p (map f (seq 0 m)) d = f p.
+  Proof. intros H. rewrite (nth_indep _ d (f 0)) by (rewrite map_length, seq_length; exact H).
+    rewrite map_nth, seq_nth by exact H. reflexivity. Qed.
+
+  Theorem full_params_by_index : full_params frozen params = by_index n frozen params.
+  Proof.
+    destruct s_facts as [Hs [Hb [Hlen Hok]]]. destruct valid_facts as [_ [_ Hn]].
+    apply (nth_ext _ _ d d).
+    - rewrite full_params_length. unfold by_index. rewrite map_length, seq_length. reflexivity.
+    - intros p Hp. rewrite full_params_length in Hp.
+      unfold by_index. rewrite nth_map_seq by exact Hp.
+      unfold full_params. fold s. rewrite (fold_spec s params Hok).
+      rewrite <- (assoc_perm frozen s p Hn (sort_perm frozen)), <- (rank_perm frozen s p (sort_perm frozen)).
+      reflexivity.
+  Qed.
 End Frozen.
+
+(* For any two insertion orders of the same finite map (lists that are permutations of each
+   other, keys distinct) get_full_params returns the same vector. *)
+Theorem full_params_order_irrelevant (A : Type) (d : A) n (frozen frozen' : list (nat * A)) params :
+  frozen_valid n frozen = true -> frozen_valid n frozen' = true -> length params = n - length frozen ->
+  Permutation frozen frozen' -> full_params frozen params = full_params frozen' params.
+Proof.
+  intros V V' L P.
+  assert (L' : length params = n - length frozen') by (rewrite <- (Permutation_length P); exact L).
+  rewrite (full_params_by_index A d n frozen params V L), (full_params_by_index A d n frozen' params V' L').
+  unfold by_index. apply map_ext. intros p.
+  assert (N : NoDup (map fst frozen)).
+  { unfold frozen_valid in V. apply andb_prop in V. destruct V as [_ V]. apply nodupb_NoDup; exact V. }
+  rewrite (assoc_perm A frozen frozen' p N P), (rank_perm A frozen frozen' p P). reflexivity.
+Qed.
